@@ -516,3 +516,23 @@ func abortCause(c *SrvCase) string {
 	}
 	return "aborted"
 }
+
+// bubbleLeftovers lists the goroutines of the current synctest bubble other than the caller (call it at the very end of a
+// case, after cleanup and after letting the release bound pass): whatever is still there would outlive the case.
+func bubbleLeftovers() (lib []string, other []string) {
+	n := runtime.Stack(stackBuf, true)
+	for i, g := range strings.Split(string(stackBuf[:n]), "\n\n") {
+		if i == 0 || !strings.Contains(g, "synctest bubble") {
+			continue // i == 0 is the calling goroutine
+		}
+		if strings.Contains(g, "internal/synctest.Run") || strings.Contains(g, "synctest.testingSynctestTest") || strings.Contains(g, "rapid.syncTestWithinRapid") {
+			continue // the bubble's own machinery
+		}
+		if strings.Contains(g, "github.com/takenet/lime-go") {
+			lib = append(lib, truncate(g, 1200))
+		} else {
+			other = append(other, truncate(g, 1200))
+		}
+	}
+	return
+}
